@@ -157,15 +157,22 @@ def _good(w, inst, v):
     return isinstance(v, int) and 0 <= v < len(w.runs) and w.runs[v][1] == "returned" and w.runs[v][0] == inst
 
 
-def _check_state(w, case, where):
+def _check_state(w, case, where, op=None):
     """oracles on the state after an operation"""
+    prev = getattr(w, "_had_value", {})
+    now = {}
     for i in range(len(w.insts)):
         cur = w.slot(i)
+        now[i] = isinstance(cur, AwaitableValue)
+        # "every await returns the cached value until it is deleted": a cached value may only disappear through del
+        if prev.get(i) and not now[i] and not (op is not None and op[0] == "del" and op[1] == i):
+            w.viol.append(["cached-value-lost-without-del", {"after_op": where, "op": list(op) if op else None, "inst": i}])
         if isinstance(cur, AwaitableValue) and not _good(w, i, cur.value):
             st = w.runs[cur.value][1] if isinstance(cur.value, int) and cur.value < len(w.runs) else None
             tag = {"raised": "failure-cached", "cancelled": "cancelled-run-cached", "running": "unfinished-run-cached"}.get(
                 st, "foreign-value-cached")
             w.viol.append([tag, {"after_op": where, "inst": i, "value": _v(cur.value)}])
+    w._had_value = now
     if case["lock"] == "lock":
         held = sum(1 for l in w.locks if l.held)
         running = sum(1 for r in w.runs if r[1] == "running")
@@ -264,7 +271,7 @@ def _observe_conc(case):
                 out = ["attrerr"]
         else:
             raise ValueError(tag)
-        _check_state(w, case, n)
+        _check_state(w, case, n, op)
         trace.append(w.snap(list(op), out))
 
     for op in case["ops"]:
@@ -343,7 +350,7 @@ def _observe_seq(case):
                 outs.append(["deleted"])
             except AttributeError:
                 outs.append(["attrerr"])
-        _check_state(w, case, len(outs) - 1)
+        _check_state(w, case, len(outs) - 1, op)
     std = None
     if all(op[0] in ("await", "del") for op in case["ops"]):
         std = _functools_history(case)
